@@ -99,8 +99,11 @@ def step (s : St) (op impl : String) : St × String × Verdict :=
                        chg := if typ == "bip44" then cgen (childOf (items (field "chg=" iw)).toArray) ⟨[]⟩ 1 else ⟨[]⟩ }
       -- the reference itself is read back; what the model checks on this line is the initial view
       -- (and, for xpub, that the watch-only wallet derives the seed wallet's external chain)
-      let ok := impl.endsWith (view s') && !(impl.splitOn " ").contains "bip44=DIFFERENT"
-      (s', if ok then impl else "ok … " ++ view s' ++ " (bip44=same)", .fail)
+      -- … and that what the WALLET derives in one batch (addresses, keys, lastSeed, fingerprint before the first
+      -- address) is what the reference says: for deterministic wallets the reference is the cipher library's
+      -- chain over the bytes of the seed string
+      let ok := impl.endsWith (view s') && !(impl.splitOn " ").any (·.endsWith "=DIFFERENT")
+      (s', if ok then impl else "ok … " ++ view s' ++ " (batch=same fp=same bip44=same)", .fail)
   | g :: n :: rest =>
     if g == "gen" || g == "ggen" then
       match n.toNat? with
